@@ -84,3 +84,510 @@ Proof.
     + rewrite E. rewrite Hme, Hnr. unfold mn in Hm. rewrite Hm. reflexivity.
     + rewrite Hoth; auto.
 Qed.
+
+(** ---- counting log entries ---- *)
+Lemma cnt_cons k v u k' v' l :
+  cnt k v ((u, k', v') :: l) = (if (Nat.eqb k' k && (v' =? v)%Z)%bool then 1 else 0) + cnt k v l.
+Proof.
+  unfold cnt. cbn [filter fst snd]. destruct (Nat.eqb k' k && (v' =? v)%Z)%bool; reflexivity.
+Qed.
+
+Lemma cnt_zero k v l : (forall u k' v', In (u, k', v') l -> k' <> k) -> cnt k v l = 0.
+Proof.
+  induction l as [|[[u k'] v'] r IH]; intros H; [reflexivity|].
+  rewrite cnt_cons. rewrite IH by (intros; eapply H; right; eauto).
+  destruct (Nat.eqb_spec k' k) as [E|E]; [|reflexivity].
+  exfalso. eapply H; [left; reflexivity|exact E].
+Qed.
+
+(** ---- the reset by the last arriver ---- *)
+Lemma inv_breset N s h t c th :
+  Inv N s h -> t < N -> thr_at s t = th -> main th = BReset c ->
+  Inv N (set_thread (set_bstate s 0) t (set_main th (after_pops c 0 None None)))
+        (mkG (S (gR h)) (ar h) (cl h) t [] (tl (arrs h)) [] [] [] (stk h) (snap h) (rets h)).
+Proof.
+  intros HI Ht Hth Hm.
+  assert (Hmt : mn s t = BReset c) by (unfold mn; rewrite Hth; exact Hm).
+  pose proof (not_susp_notin_stk N s h t HI ltac:(rewrite Hmt; discriminate)) as (Hn1 & Hn2 & Hn3).
+  inv_open HI.
+  pose proof (HT t Ht) as HTt. unfold T in HTt. rewrite Hmt in HTt.
+  destruct HTt as (Tc & Tcl & Ta & Tcv & Thd & Tlen).
+  destruct Harrs as (A1 & A2 & A3).
+  destruct (arrs h) as [|t0 rest] eqn:Earr; [discriminate|].
+  cbn [hd_error] in Thd. inversion Thd; subst t0. cbn [tl].
+  assert (Hall : forall u, u < N -> In u (t :: rest)).
+  { apply nodup_full; auto. intros x Hx. apply A3; auto. }
+  assert (Harv : forall u, u < N -> arv h u = S (gR h)).
+  { intros u Hu. apply A3. apply Hall; auto. }
+  pose proof (proj1 (NoDup_cons_iff _ _) A2) as [Hnr Hndr].
+  assert (Hsusp : forall u, u < N -> u <> t -> mn s u = Susp /\ In u rest).
+  { intros u Hu Hne. pose proof (HT u Hu) as HTu. unfold T in HTu. pose proof (Harv u Hu) as Ea.
+    assert (Hir : In u rest) by (destruct (Hall u Hu); [congruence|assumption]).
+    destruct (mn s u); try (exfalso; lia); try tauto.
+    destruct HTu as (_ & _ & _ & _ & Hhd & _). rewrite Earr in Hhd. cbn [hd_error] in Hhd. congruence. }
+  set (s' := set_thread (set_bstate s 0) t (set_main th (after_pops c 0 None None))).
+  assert (Hoth : forall x, x <> t -> thr_at s' x = thr_at s x).
+  { intros x Hx. subst s'. vw. updsimp. reflexivity. }
+  assert (Hme : thr_at s' t = set_main th (after_pops c 0 None None)).
+  { subst s'. vw. updsimp. reflexivity. }
+  assert (Hcb : cb th = CbNone) by (unfold cbk in Tc; rewrite Hth in Tc; exact Tc).
+  assert (Hc1 : (c = Z.of_nat N - 1)%Z) by exact Tcv.
+  assert (Hlr : length rest = N - 1) by (cbn [length] in Tlen; lia).
+  assert (Hap : (after_pops c 0 None None = PopRead c 0 None None /\ 2 <= N) \/
+                (after_pops c 0 None None = Done 1 /\ N = 1)).
+  { unfold after_pops. destruct (Z.ltb_spec 0 c); [left|right]; split; auto; lia. }
+  (* the lists of the old round are empty: their members have not arrived in the new round *)
+  assert (Hslp0 : slp h = []).
+  { destruct (slp h) as [|x r] eqn:E; auto. destruct Hslp as (_ & S2).
+    destruct (S2 x (or_introl eq_refl)) as (B1 & _ & B3). rewrite Harv in B3 by auto. lia. }
+  assert (Hacc0 : acc h = []).
+  { destruct (acc h) as [|x r] eqn:E; auto. destruct Hstk as (_ & _ & _ & S4).
+    destruct (S4 x (or_introl eq_refl)) as ((B1 & _) & B3). rewrite Harv in B3 by auto. lia. }
+  assert (Hwk0 : wk h = []).
+  { destruct (wk h) as [|x r] eqn:E; auto. destruct Hwk as (_ & S2).
+    destruct (S2 x (or_introl eq_refl)) as (B1 & B2). pose proof (HT x B1) as HTx. unfold T in HTx.
+    rewrite B2 in HTx. rewrite Harv in HTx by auto. lia. }
+  constructor; cbn [gR ar cl ldr arrs slp acc wk zret stk snap rets].
+  - subst s'. cbn [set_thread set_bstate thr nxt nthr]. rewrite !upd_length. repeat split; auto.
+  - intros u Hu. destruct (Nat.eq_dec u t) as [->|Hne].
+    + unfold T, mn, cbk. rewrite Hme. cbn [set_main main cb gR ldr wk]. rewrite Hcb.
+      unfold arv, clv in *. cbn [ar cl].
+      destruct Hap as [[-> _]|[-> _]]; repeat split; auto; try lia.
+    + destruct (Hsusp u Hu Hne) as [Hsu Hir].
+      pose proof (HT u Hu) as HTu. unfold T in *. unfold mn, cbk, nx, arv, clv in *. rewrite Hoth by auto.
+      cbn [gR ar cl ldr arrs slp acc stk]. rewrite Hsu in *.
+      destruct HTu as (U1 & U2 & U3). split; auto. split.
+      * right. pose proof (Harv u Hu) as Ea. unfold arv in Ea. repeat split; auto; lia.
+      * subst s'. cbn [set_thread set_bstate nxt]. rewrite Hacc0 in U3.
+        destruct (cb (thr_at s u)); cbn [In] in *; tauto.
+  - subst s'. cbn [set_thread set_bstate bstate length]. refine (conj _ (conj _ _)); [reflexivity|constructor|intros u []].
+  - destruct Hstk as (S1 & S2 & S3 & S4). refine (conj _ (conj _ (conj _ _))); auto.
+    + rewrite app_nil_r. apply NoDup_app_l in S2. exact S2.
+    + intros x Hx. apply asleep_keep with (s := s); auto. apply Hoth. intros ->; auto.
+    + intros x [].
+  - split; auto. intros x Hx.
+    assert (Hxn : x < N) by (apply A3; right; auto).
+    assert (Hxt : x <> t) by (intros ->; auto).
+    repeat split; auto.
+    + unfold mn. rewrite Hoth by auto. apply Hsusp; auto.
+    + apply Harv; auto.
+  - split; [constructor|intros x []].
+  - split; [intros; lia|]. intros _. cbn [length]. split; auto. lia.
+  - intros _. unfold GL, mn. cbn [ldr arrs slp acc wk zret]. rewrite Hme. cbn [set_main main].
+    destruct Hap as [[-> Hn]|[-> Hn]].
+    + repeat split; auto; try lia; try reflexivity.
+    + split; auto. apply length_zero_iff_nil. lia.
+  - destruct Hlog as (G1 & G2 & G3). refine (conj _ (conj _ _)).
+    + intros u k v Hin. destruct (G1 u k v Hin). split; auto. lia.
+    + intros k Hk. destruct (Nat.eq_dec k (gR h)) as [->|Hne]; [|apply G2; lia].
+      assert (HR : 1 <= gR h) by lia. destruct (G3 HR) as [G3a G3b]. destruct Hsum as [_ Hs2].
+      destruct (Hs2 HR) as [Hs3 Hlt]. rewrite G3a, G3b. split.
+      * destruct (Nat.eq_dec (ldr h) t) as [E|E].
+        -- rewrite E, Hmt. reflexivity.
+        -- destruct (Hsusp (ldr h) Hlt E) as [-> _]. reflexivity.
+      * rewrite Hslp0, Hacc0, Hwk0 in Hs3. cbn [length] in Hs3. lia.
+    + intros _. unfold mn. rewrite Hme. cbn [set_main main].
+      rewrite !cnt_zero by (intros u k' v' Hin; destruct (G1 u k' v' Hin); lia).
+      destruct Hap as [[-> _]|[-> _]]; split; reflexivity.
+Qed.
+
+(** a thread with a pending callback is suspended *)
+Lemma cb_pending_susp N s h t : Inv N s h -> t < N -> cbk s t <> CbNone -> mn s t = Susp.
+Proof.
+  intros HI Ht Hc. destruct HI as [_ HT _ _ _ _ _ _ _]. specialize (HT t Ht). unfold T in HT.
+  destruct (mn s t); try reflexivity; try (exfalso; tauto).
+Qed.
+
+(** ---- the sleeper's callback reads top and links itself ---- *)
+Lemma inv_cbread N s h t th :
+  Inv N s h -> t < N -> thr_at s t = th -> cb th = CbPushRead ->
+  Inv N (set_thread (set_next s t (top s)) t (set_cb th (CbPushCas (top s)))) h.
+Proof.
+  intros HI Ht Hth Hc.
+  assert (Hcb : cbk s t = CbPushRead) by (unfold cbk; rewrite Hth; exact Hc).
+  pose proof (cb_pending_susp N s h t HI Ht ltac:(rewrite Hcb; discriminate)) as Hmt.
+  inv_open HI.
+  pose proof (HT t Ht) as HTt. unfold T in HTt. rewrite Hmt, Hcb in HTt.
+  destruct HTt as (Tcl & Td & Tn1 & Tn2).
+  set (s' := set_thread (set_next s t (top s)) t (set_cb th (CbPushCas (top s)))).
+  assert (Hoth : forall x, x <> t -> thr_at s' x = thr_at s x).
+  { intros x Hx. subst s'. vw. updsimp. reflexivity. }
+  assert (Hme : thr_at s' t = set_cb th (CbPushCas (top s))).
+  { subst s'. vw. updsimp. reflexivity. }
+  assert (Hmn : forall x, mn s' x = mn s x).
+  { intros x. unfold mn. destruct (Nat.eq_dec x t) as [->|Hx]; [|rewrite Hoth; auto].
+    rewrite Hme, Hth. reflexivity. }
+  assert (Hnx : nxt s' = upd (nxt s) t (top s)) by reflexivity.
+  destruct h as [R0 ar0 cl0 ldr0 arrs0 slp0 acc0 wk0 zret0 stk0 snap0 rets0].
+  cbn [gR ar cl ldr arrs slp acc wk zret stk snap rets] in *.
+  constructor; cbn [gR ar cl ldr arrs slp acc wk zret stk snap rets].
+  - subst s'. cbn [set_thread set_next thr nxt nthr]. rewrite !upd_length. repeat split; auto.
+  - intros u Hu. destruct (Nat.eq_dec u t) as [->|Hne].
+    + unfold T. rewrite Hmn, Hmt. unfold cbk, nx. rewrite Hme, Hnx. cbn [set_cb cb]. updsimp.
+      repeat split; auto.
+    + eapply T_frame; try apply (HT u Hu); try reflexivity; auto.
+      intros tp _. unfold nx. rewrite Hnx. updsimp. reflexivity.
+  - exact Harrs.
+  - destruct Hstk as (S1 & S2 & S3 & S4). refine (conj _ (conj _ (conj _ _))); auto.
+    + rewrite Hnx. apply chain_upd_notin; auto.
+    + intros x Hx. apply asleep_keep with (s := s); auto. apply Hoth. intros ->; auto.
+    + intros x Hx. split; [|apply S4; auto].
+      apply asleep_keep with (s := s); [|apply S4; auto]. apply Hoth. intros ->; auto.
+  - destruct Hslp as (S1 & S2). split; auto. intros x Hx. rewrite Hmn. apply S2; auto.
+  - destruct Hwk as (S1 & S2). split; auto. intros x Hx. rewrite Hmn. apply S2; auto.
+  - exact Hsum.
+  - intros HR. specialize (Hldr HR). unfold GL in *. cbn [ldr arrs slp acc wk zret stk snap] in *.
+    rewrite Hmn, Hnx.
+    destruct (mn s ldr0); auto.
+    + destruct Hldr as (G1 & G2 & G3 & G4 & G5 & G6 & G7 & G8). repeat split; auto; try lia.
+      apply chain_upd_notin; auto.
+    + destruct Hldr as (G1 & G2 & G3 & G4 & G5 & G6 & G7 & G8 & G9 & G10). repeat split; auto; try lia.
+      apply chain_upd_notin; auto.
+    + destruct Hldr as (G1 & G2 & G3 & G4 & G5). repeat split; auto; try lia.
+      apply chain_upd_notin; auto.
+  - rewrite Hmn. exact Hlog.
+Qed.
+
+(** ---- the sleeper's callback CAS succeeds: it is on the stack ---- *)
+Lemma inv_cbcas_ok N s h t th tp :
+  Inv N s h -> t < N -> thr_at s t = th -> cb th = CbPushCas tp -> top s = tp ->
+  Inv N (set_thread (set_top s (Some t)) t (set_cb th CbNone))
+        (mkG (gR h) (ar h) (cl h) (ldr h) (arrs h) (slp h) (acc h) (wk h) (zret h) (t :: stk h) (snap h) (rets h)).
+Proof.
+  intros HI Ht Hth Hc Htop.
+  assert (Hcb : cbk s t = CbPushCas tp) by (unfold cbk; rewrite Hth; exact Hc).
+  pose proof (cb_pending_susp N s h t HI Ht ltac:(rewrite Hcb; discriminate)) as Hmt.
+  inv_open HI.
+  pose proof (HT t Ht) as HTt. unfold T in HTt. rewrite Hmt, Hcb in HTt.
+  destruct HTt as (Tcl & Td & Tnx & Tn1 & Tn2).
+  set (s' := set_thread (set_top s (Some t)) t (set_cb th CbNone)).
+  assert (Hoth : forall x, x <> t -> thr_at s' x = thr_at s x).
+  { intros x Hx. subst s'. vw. updsimp. reflexivity. }
+  assert (Hme : thr_at s' t = set_cb th CbNone).
+  { subst s'. vw. updsimp. reflexivity. }
+  assert (Hmn : forall x, mn s' x = mn s x).
+  { intros x. unfold mn. destruct (Nat.eq_dec x t) as [->|Hx]; [|rewrite Hoth; auto].
+    rewrite Hme, Hth. reflexivity. }
+  assert (Hnx : nxt s' = nxt s) by reflexivity.
+  constructor; cbn [gR ar cl ldr arrs slp acc wk zret stk snap rets].
+  - subst s'. cbn [set_thread set_top thr nxt nthr]. rewrite !upd_length. repeat split; auto.
+  - intros u Hu. destruct (Nat.eq_dec u t) as [->|Hne].
+    + unfold T. rewrite Hmn, Hmt. unfold cbk. rewrite Hme. cbn [set_cb cb gR arrs slp acc stk ldr].
+      unfold arv, clv in *. cbn [ar cl]. repeat split; auto. left; left; reflexivity.
+    + eapply T_frame; try apply (HT u Hu); try reflexivity; auto.
+      cbn [stk]. split; [intros [E|H]; [congruence|auto]|intros H; right; auto].
+  - exact Harrs.
+  - destruct Hstk as (S1 & S2 & S3 & S4). refine (conj _ (conj _ (conj _ _))).
+    + rewrite Hnx. subst s'. cbn [set_thread set_top top chain]. split; auto.
+      unfold nx in Tnx. rewrite Tnx, <- Htop. exact S1.
+    + cbn [app]. constructor; auto. intros Hin. apply in_app_or in Hin. tauto.
+    + intros x [<-|Hx].
+      * unfold asleep. rewrite Hmn. unfold cbk. rewrite Hme. auto.
+      * apply asleep_keep with (s := s); auto. apply Hoth. intros ->; auto.
+    + intros x Hx. split; [|apply S4; auto].
+      apply asleep_keep with (s := s); [|apply S4; auto]. apply Hoth. intros ->; auto.
+  - destruct Hslp as (S1 & S2). split; auto. intros x Hx. rewrite Hmn. apply S2; auto.
+  - destruct Hwk as (S1 & S2). split; auto. intros x Hx. rewrite Hmn. apply S2; auto.
+  - exact Hsum.
+  - intros HR. specialize (Hldr HR). unfold GL in *. cbn [ldr arrs slp acc wk zret stk snap] in *.
+    rewrite Hmn, Hnx.
+    destruct (mn s (ldr h)); auto.
+    destruct Hldr as (G1 & G2 & G3 & G4 & G5 & G6 & G7 & G8 & (pre & G9) & G10). repeat split; auto; try lia.
+    exists (t :: pre). rewrite G9. reflexivity.
+  - rewrite Hmn. exact Hlog.
+Qed.
+
+(** ---- return to the caller ---- *)
+Lemma inv_ret N s h t th r :
+  Inv N s h -> t < N -> thr_at s t = th -> main th = Done r ->
+  Inv N (set_thread s t (set_main th Idle))
+        (if (r =? 0)%Z then
+           mkG (gR h) (ar h) (cl h) (ldr h) (arrs h) (slp h) (acc h) (remove Nat.eq_dec t (wk h)) (t :: zret h)
+               (stk h) (snap h) ((t, nth t (cl h) 0, r) :: rets h)
+         else
+           mkG (gR h) (ar h) (cl h) (ldr h) (arrs h) (slp h) (acc h) (wk h) (zret h) (stk h) (snap h)
+               ((t, nth t (cl h) 0, r) :: rets h)).
+Proof.
+  intros HI Ht Hth Hm.
+  assert (Hmt : mn s t = Done r) by (unfold mn; rewrite Hth; exact Hm).
+  pose proof (not_susp_notin_stk N s h t HI ltac:(rewrite Hmt; discriminate)) as (Hn1 & Hn2 & Hn3).
+  inv_open HI.
+  pose proof (HT t Ht) as HTt. unfold T in HTt. rewrite Hmt in HTt.
+  destruct HTt as (Tc & Tcl & Ta & TR & Tr).
+  set (s' := set_thread s t (set_main th Idle)).
+  assert (Hoth : forall x, x <> t -> thr_at s' x = thr_at s x).
+  { intros x Hx. subst s'. vw. updsimp. reflexivity. }
+  assert (Hme : thr_at s' t = set_main th Idle).
+  { subst s'. vw. updsimp. reflexivity. }
+  assert (Hcb : cb th = CbNone) by (unfold cbk in Tc; rewrite Hth in Tc; exact Tc).
+  assert (Hclt : nth t (cl h) 0 = gR h) by (unfold clv, arv in *; lia).
+  assert (Hlen' : length (thr s') = N /\ length (nxt s') = N /\ length (ar h) = N /\ length (cl h) = N /\
+                  nthr s' = Z.of_nat N /\ 1 <= N).
+  { subst s'. cbn [set_thread thr nxt nthr]. rewrite !upd_length. repeat split; auto. }
+  assert (Hstk' : forall l, (forall x, In x l -> asleep N s x) -> forall x, In x l -> asleep N s' x).
+  { intros l Hl x Hx. apply asleep_keep with (s := s); auto. apply Hoth. intros ->.
+    destruct (Hl t Hx) as (_ & E & _). congruence. }
+  destruct Tr as [[-> Tl]|(-> & Tw & Tnl)]; cbn [Z.eqb].
+  - (* the serial thread returns 1 *)
+    assert (Hnw : ~ In t (wk h)).
+    { intros Hin. destruct Hwk as (_ & S2). destruct (S2 t Hin). congruence. }
+    constructor; cbn [gR ar cl ldr arrs slp acc wk zret stk snap rets]; auto.
+    + intros u Hu. destruct (Nat.eq_dec u t) as [->|Hne].
+      * unfold T, mn, cbk. rewrite Hme. cbn [set_main main cb gR ldr zret]. rewrite Hcb.
+        unfold arv, clv in *. cbn [ar cl]. repeat split; auto.
+      * eapply T_frame; try apply (HT u Hu); try reflexivity; auto.
+    + destruct Hstk as (S1 & S2 & S3 & S4). refine (conj _ (conj _ (conj _ _))); auto.
+      * apply Hstk'; auto.
+      * intros x Hx. split; [|apply S4; auto]. apply (Hstk' (acc h)); auto. intros y Hy. apply S4; auto.
+    + destruct Hslp as (S1 & S2). split; auto. intros x Hx. unfold mn. rewrite Hoth by (intros ->; auto).
+      apply S2; auto.
+    + destruct Hwk as (S1 & S2). split; auto. intros x Hx. unfold mn. rewrite Hoth by (intros ->; auto).
+      apply S2; auto.
+    + intros HR. specialize (Hldr HR). unfold GL in *. cbn [ldr arrs slp acc wk zret stk snap].
+      unfold mn in *. rewrite <- Tl in *. rewrite Hme. rewrite Hth, Hm in Hldr. cbn [set_main main]. exact Hldr.
+    + destruct Hlog as (G1 & G2 & G3). refine (conj _ (conj _ _)).
+      * intros u k v [E|Hin]; [|apply G1 with (u := u); auto]. inversion E; subst u k v. split; auto. lia.
+      * intros k Hk. rewrite !cnt_cons. rewrite Hclt.
+        destruct (Nat.eqb_spec (gR h) k) as [E|E]; [lia|]. cbn [andb]. apply G2; auto.
+      * intros HR. destruct (G3 HR) as [G3a G3b]. rewrite !cnt_cons, Hclt, Nat.eqb_refl. cbn [andb Z.eqb Pos.eqb].
+        rewrite G3a, G3b. unfold mn. rewrite <- Tl. rewrite Hme. rewrite Hth, Hm. cbn [set_main main in_release].
+        split; reflexivity.
+  - (* a woken sleeper returns 0 *)
+    constructor; cbn [gR ar cl ldr arrs slp acc wk zret stk snap rets]; auto.
+    + intros u Hu. destruct (Nat.eq_dec u t) as [->|Hne].
+      * unfold T, mn, cbk. rewrite Hme. cbn [set_main main cb gR ldr zret]. rewrite Hcb.
+        unfold arv, clv in *. cbn [ar cl]. repeat split; auto. intros _. right. left. reflexivity.
+      * eapply T_frame; try apply (HT u Hu); try reflexivity; auto.
+        -- cbn [wk]. rewrite in_remove_iff. tauto.
+        -- cbn [zret]. split; [intros [E|H]; [congruence|auto]|intros H; right; auto].
+    + destruct Hstk as (S1 & S2 & S3 & S4). refine (conj _ (conj _ (conj _ _))); auto.
+      * apply Hstk'; auto.
+      * intros x Hx. split; [|apply S4; auto]. apply (Hstk' (acc h)); auto. intros y Hy. apply S4; auto.
+    + destruct Hslp as (S1 & S2). split; auto. intros x Hx. unfold mn. rewrite Hoth by (intros ->; auto).
+      apply S2; auto.
+    + destruct Hwk as (S1 & S2). split; [apply remove_nodup; auto|]. intros x Hx.
+      apply in_remove_iff in Hx. destruct Hx as [Hx Hne]. unfold mn. rewrite Hoth by auto. apply S2; auto.
+    + destruct Hsum as (Q1 & Q2). split; [intros E; lia|]. intros HR. destruct (Q2 HR) as [Q3 Q4]. split; auto.
+      destruct Hwk as (S1 & S2). pose proof (remove_length_nodup t (wk h) S1 Tw). cbn [length]. lia.
+    + intros HR. specialize (Hldr HR). unfold GL in *. cbn [ldr arrs slp acc wk zret stk snap].
+      unfold mn in *. rewrite Hoth by auto.
+      destruct (main (thr_at s (ldr h))); auto.
+      * destruct Hldr as (_ & _ & _ & _ & W0 & _). rewrite W0 in Tw. destruct Tw.
+      * destruct Hldr as (_ & _ & _ & _ & W0 & _). rewrite W0 in Tw. destruct Tw.
+    + destruct Hlog as (G1 & G2 & G3). refine (conj _ (conj _ _)).
+      * intros u k v [E|Hin]; [|apply G1 with (u := u); auto]. inversion E; subst u k v. split; auto. lia.
+      * intros k Hk. rewrite !cnt_cons. rewrite Hclt.
+        destruct (Nat.eqb_spec (gR h) k) as [E|E]; [lia|]. cbn [andb]. apply G2; auto.
+      * intros HR. destruct (G3 HR) as [G3a G3b]. rewrite !cnt_cons, Hclt, Nat.eqb_refl. cbn [andb Z.eqb length].
+        rewrite G3a, G3b. unfold mn. rewrite Hoth by auto. split; reflexivity.
+Qed.
+
+Lemma NoDup_rotate {A} (x : A) l1 l2 : NoDup ((x :: l1) ++ l2) -> NoDup (l1 ++ l2 ++ [x]).
+Proof.
+  intros H. rewrite app_assoc. apply (Permutation_NoDup (l := x :: (l1 ++ l2))); auto.
+  apply Permutation_cons_append.
+Qed.
+
+(** ---- the popper's CAS succeeds: [x] moves from the stack to the private list ---- *)
+Lemma inv_popcas_ok N s h t th n i hd tl x s2 :
+  Inv N s h -> t < N -> thr_at s t = th -> main th = PopCas n i hd tl x -> top s = Some x ->
+  s2 = (let s1 := set_next (set_top s (get_next s x)) x None in
+        match tl with Some y => set_next s1 y (Some x) | None => s1 end) ->
+  Inv N (set_thread s2 t (set_main th (after_pops n (i + 1) (match tl with Some _ => hd | None => Some x end) (Some x))))
+        (mkG (gR h) (ar h) (cl h) (ldr h) (arrs h) (remove Nat.eq_dec x (slp h)) (acc h ++ [x]) (wk h)
+             (zret h) (List.tl (stk h)) (snap h) (rets h)).
+Proof.
+  intros HI Ht Hth Hm Htop Hs2.
+  assert (Hmt : mn s t = PopCas n i hd tl x) by (unfold mn; rewrite Hth; exact Hm).
+  pose proof (not_susp_notin_stk N s h t HI ltac:(rewrite Hmt; discriminate)) as (Hn1 & Hn2 & Hn3).
+  pose proof (not_done0_notin_wk N s h t HI ltac:(rewrite Hmt; discriminate)) as Hn4.
+  inv_open HI.
+  pose proof (HT t Ht) as HTt. unfold T in HTt. rewrite Hmt in HTt.
+  destruct HTt as (Tc & Tcl & Ta & TR & Tl).
+  pose proof (Hldr TR) as HG. unfold GL in HG. rewrite <- Tl, Hmt in HG.
+  destruct HG as (G1 & G2 & G3 & G4 & G5 & G6 & G7 & G8 & G9 & G10).
+  destruct Hstk as (S1 & S2 & S3 & S4).
+  destruct (stk h) as [|x0 rest] eqn:Estk; [cbn [chain] in S1; congruence|].
+  cbn [chain] in S1. destruct S1 as [E1 S1]. rewrite Htop in E1. inversion E1; subst x0. clear E1.
+  cbn [List.tl].
+  assert (Hax : asleep N s x) by (apply S3; left; auto).
+  destruct Hax as (Hxn & Hxm & Hxc).
+  assert (Hxr : ~ In x rest /\ ~ In x (acc h) /\ NoDup (rest ++ acc h)).
+  { cbn [app] in S2. apply NoDup_cons_iff in S2. destruct S2 as [B1 B2]. repeat split; auto;
+    intros Hin; apply B1; apply in_or_app; auto. }
+  destruct Hxr as (Hxr & Hxa & Hnd).
+  assert (Hxs : In x (slp h) /\ arv h x = gR h).
+  { pose proof (HT x Hxn) as HTx. unfold T in HTx. rewrite Hxm in HTx. destruct HTx as (_ & [[_ B]|B] & _).
+    - rewrite G4 in B. destruct B.
+    - destruct B as (B1 & _ & _ & [B|B]); [auto|contradiction]. }
+  destruct Hxs as [Hxs Hxa0].
+  assert (Hxt : x <> t) by (intros ->; congruence).
+  assert (Hcb : cb th = CbNone) by (unfold cbk in Tc; rewrite Hth in Tc; exact Tc).
+  assert (Hnda : NoDup (acc h)) by (apply NoDup_app_r in Hnd; exact Hnd).
+  (* the new links *)
+  set (nxt' := match acc h with
+               | [] => upd (nxt s) x None
+               | _ => upd (upd (nxt s) x None) (last (acc h) 0) (Some x)
+               end).
+  assert (Hs2n : nxt s2 = nxt' /\ top s2 = nth x (nxt s) None /\ thr s2 = thr s /\ nthr s2 = nthr s /\ bstate s2 = bstate s).
+  { subst s2 nxt'. rewrite G8. unfold last_opt, get_next. destruct (acc h); cbn; repeat split; reflexivity. }
+  destruct Hs2n as (Hnx2 & Htop2 & Hthr2 & Hnthr2 & Hbs2).
+  assert (Hh' : (match tl with Some _ => hd | None => Some x end) = match acc h with [] => Some x | _ => hd end).
+  { rewrite G8. unfold last_opt. destruct (acc h); reflexivity. }
+  rewrite Hh'.
+  assert (Hlast : acc h <> [] -> In (last (acc h) 0) (acc h)) by (apply last_in).
+  assert (Hnxo : forall u, u <> x -> ~ In u (acc h) -> nth u nxt' None = nth u (nxt s) None).
+  { intros u Hu1 Hu2. subst nxt'. destruct (acc h) as [|a0 r0] eqn:Ea.
+    - updsimp. reflexivity.
+    - rewrite nth_upd_neq; [rewrite nth_upd_neq; auto|]. intros E. apply Hu2. rewrite <- E. apply Hlast. discriminate. }
+  assert (Hlen' : length nxt' = N).
+  { subst nxt'. destruct (acc h); rewrite ?upd_length; auto. }
+  assert (Hchain' : chain nxt' (match acc h with [] => Some x | _ => hd end) (acc h ++ [x])).
+  { subst nxt'. destruct (acc h) as [|a0 r0] eqn:Ea.
+    - cbn [app]. apply chain_single. lia.
+    - apply chain_snoc; auto; try discriminate; try lia.
+      intros y Hy. rewrite L2. apply S4; auto. }
+  set (pc' := after_pops n (i + 1) match acc h with [] => Some x | _ => hd end (Some x)).
+  set (s' := set_thread s2 t (set_main th pc')).
+  assert (Hoth : forall u, u <> t -> thr_at s' u = thr_at s u).
+  { intros u Hu. subst s'. unfold thr_at. cbn [set_thread thr]. rewrite Hthr2. updsimp. reflexivity. }
+  assert (Hme : thr_at s' t = set_main th pc').
+  { subst s'. unfold thr_at. cbn [set_thread thr]. rewrite Hthr2. updsimp. reflexivity. }
+  assert (Hnx' : nxt s' = nxt') by (subst s'; cbn [set_thread nxt]; exact Hnx2).
+  assert (Hsum2 : length (slp h) + length (acc h) = N - 1).
+  { destruct Hsum as [_ Q]. destruct (Q TR) as [Q1 _]. rewrite G5, G6 in Q1. cbn [length] in Q1. lia. }
+  assert (Hrem : S (length (remove Nat.eq_dec x (slp h))) = length (slp h)).
+  { apply remove_length_nodup; auto. apply Hslp. }
+  assert (Hpc : (pc' = PopRead n (i + 1) match acc h with [] => Some x | _ => hd end (Some x) /\ (i + 1 < n)%Z) \/
+                (pc' = WPush n 0 match acc h with [] => Some x | _ => hd end /\ (i + 1 = n)%Z)).
+  { subst pc'. unfold after_pops. destruct (Z.ltb_spec (i + 1) n); [left; split; auto|right].
+    destruct (Z.ltb_spec 0 n); [split; auto; lia|lia]. }
+  assert (Hrel : releasing pc' = true /\ in_release pc' = true).
+  { destruct Hpc as [[-> _]|[-> _]]; split; reflexivity. }
+  constructor; cbn [gR ar cl ldr arrs slp acc wk zret stk snap rets].
+  - subst s'. cbn [set_thread thr nxt nthr]. rewrite Hthr2, Hnx2, Hnthr2, !upd_length. repeat split; auto.
+  - intros u Hu. destruct (Nat.eq_dec u t) as [->|Hne]; [|destruct (Nat.eq_dec u x) as [->|Hnx]].
+    + unfold T, mn, cbk. rewrite Hme. cbn [set_main main cb gR ldr]. rewrite Hcb. unfold arv, clv in *. cbn [ar cl].
+      destruct Hpc as [[-> _]|[-> _]]; repeat split; auto.
+    + pose proof (HT x Hu) as HTx. unfold T in *. unfold mn, cbk in *. rewrite Hoth by auto.
+      rewrite Hxm in *. unfold cbk in Hxc. rewrite Hxc in *. unfold arv, clv in *.
+      cbn [gR ar cl ldr arrs slp acc stk]. destruct HTx as (U1 & U2 & U3). split; auto. split.
+      * right. destruct U2 as [[U2 U2']|U2]; [rewrite G4 in U2'; destruct U2'|].
+        destruct U2 as (V1 & V2 & V3 & V4). repeat split; auto. right. apply in_or_app. right. left. reflexivity.
+      * right. apply in_or_app. right. left. reflexivity.
+    + eapply T_frame; try apply (HT u Hu); try reflexivity; auto.
+      * intros tp Hcp. unfold nx. rewrite Hnx'. apply Hnxo; auto.
+        intros Hin. destruct (S4 u Hin) as ((_ & _ & B) & _). congruence.
+      * cbn [slp]. rewrite in_remove_iff. tauto.
+      * cbn [acc]. rewrite in_app_iff. cbn [In]. split; [intros [H|[H|[]]]; [auto|congruence]|auto].
+      * cbn [stk]. rewrite Estk. cbn [In]. split; [auto|intros [H|H]; [congruence|auto]].
+  - subst s'. cbn [set_thread bstate]. rewrite Hbs2. exact Harrs.
+  - refine (conj _ (conj _ (conj _ _))).
+    + rewrite Hnx'. subst s'. cbn [set_thread top]. rewrite Htop2.
+      eapply chain_frame; [|exact S1]. intros y Hy. apply Hnxo.
+      * intros ->; auto.
+      * intros Hin. eapply NoDup_app_disj; eauto.
+    + apply NoDup_rotate. exact S2.
+    + intros y Hy. apply asleep_keep with (s := s).
+      * apply Hoth. intros ->. destruct (S3 t (or_intror Hy)) as (_ & E & _). congruence.
+      * apply S3. right; auto.
+    + intros y Hy. apply in_app_or in Hy. destruct Hy as [Hy|[<-|[]]].
+      * destruct (S4 y Hy) as [B1 B2]. split; auto. apply asleep_keep with (s := s); auto.
+        apply Hoth. intros ->. contradiction.
+      * split; [|exact Hxa0]. apply asleep_keep with (s := s); [apply Hoth; auto|].
+        repeat split; auto.
+  - destruct Hslp as (P1 & P2). split; [apply remove_nodup; auto|]. intros y Hy.
+    apply in_remove_iff in Hy. destruct Hy as [Hy _]. unfold mn. rewrite Hoth by (intros ->; auto).
+    apply P2; auto.
+  - destruct Hwk as (P1 & P2). split; auto. intros y Hy. rewrite G5 in Hy. destruct Hy.
+  - destruct Hsum as (Q1 & Q2). split; [intros E; lia|]. intros _. destruct (Q2 TR) as [_ Q3]. split; auto.
+    rewrite app_length. cbn [length]. rewrite G5, G6. cbn [length]. lia.
+  - intros _. unfold GL, mn. cbn [ldr arrs slp acc wk zret stk snap]. rewrite <- Tl. rewrite Hme. cbn [set_main main].
+    rewrite Hnx'.
+    assert (Hla : Z.of_nat (length (acc h ++ [x])) = (i + 1)%Z).
+    { rewrite app_length. cbn [length]. lia. }
+    destruct Hpc as [[-> Hlt]|[-> Heq]].
+    + repeat split; auto; try lia. rewrite last_opt_snoc. reflexivity.
+    + repeat split; auto; try lia. apply length_zero_iff_nil. lia.
+  - destruct Hlog as (Q1 & Q2 & Q3). refine (conj Q1 (conj Q2 _)).
+    intros _. destruct (Q3 TR) as [Q3a Q3b]. split; [|exact Q3b]. rewrite Q3a. unfold mn.
+    rewrite <- Tl. rewrite Hme. cbn [set_main main]. destruct Hrel as [_ ->]. unfold mn in Hmt. rewrite Hmt. reflexivity.
+Qed.
+
+(** ---- the last arriver pushes a popped sleeper to the run queue ---- *)
+Lemma inv_wpush N s h t th n i x :
+  Inv N s h -> t < N -> thr_at s t = th -> main th = WPush n i (Some x) ->
+  Inv N (set_thread (set_thread s x (set_main (thr_at s x) (Done 0))) t
+           (set_main th (if (i + 1 <? n)%Z then WPush n (i + 1) (get_next s x) else Done SERIAL)))
+        (mkG (gR h) (ar h) (cl h) (ldr h) (arrs h) (slp h) (List.tl (acc h)) (x :: wk h) (zret h) (stk h) (snap h)
+             (rets h))
+  /\ mn s x = Susp /\ x < N /\ x <> t.
+Proof.
+  intros HI Ht Hth Hm.
+  assert (Hmt : mn s t = WPush n i (Some x)) by (unfold mn; rewrite Hth; exact Hm).
+  pose proof (not_susp_notin_stk N s h t HI ltac:(rewrite Hmt; discriminate)) as (Hn1 & Hn2 & Hn3).
+  pose proof (not_done0_notin_wk N s h t HI ltac:(rewrite Hmt; discriminate)) as Hn4.
+  inv_open HI.
+  pose proof (HT t Ht) as HTt. unfold T in HTt. rewrite Hmt in HTt.
+  destruct HTt as (Tc & Tcl & Ta & TR & Tl).
+  pose proof (Hldr TR) as HG. unfold GL in HG. rewrite <- Tl, Hmt in HG.
+  destruct HG as (G1 & G2 & G3 & G4 & G5).
+  destruct Hstk as (S1 & S2 & S3 & S4).
+  destruct (acc h) as [|x0 acc'] eqn:Eacc; [cbn [chain] in G5; congruence|].
+  cbn [chain] in G5. destruct G5 as [E1 G5]. inversion E1; subst x0. clear E1. cbn [List.tl].
+  destruct (S4 x (or_introl eq_refl)) as ((Hxn & Hxm & Hxc) & Hxa).
+  assert (Hxt : x <> t) by (intros ->; congruence).
+  assert (Hnd : ~ In x (stk h) /\ ~ In x acc' /\ NoDup (stk h ++ acc')).
+  { split; [|split].
+    - intros Hin. eapply NoDup_app_disj; eauto. left; auto.
+    - apply NoDup_app_r in S2. apply NoDup_cons_iff in S2. tauto.
+    - eapply NoDup_remove_1; eauto. }
+  destruct Hnd as (Hxs & Hxa' & Hnd).
+  assert (Hxw : ~ In x (wk h)).
+  { intros Hin. destruct Hwk as (_ & P2). destruct (P2 x Hin). congruence. }
+  split; [|auto].
+  set (pc' := if (i + 1 <? n)%Z then WPush n (i + 1) (get_next s x) else Done SERIAL).
+  set (s' := set_thread (set_thread s x (set_main (thr_at s x) (Done 0))) t (set_main th pc')).
+  assert (Hoth : forall u, u <> t -> u <> x -> thr_at s' u = thr_at s u).
+  { intros u Hu1 Hu2. subst s'. vw. updsimp. reflexivity. }
+  assert (Hme : thr_at s' t = set_main th pc').
+  { subst s'. vw. updsimp. reflexivity. }
+  assert (Hmx : thr_at s' x = set_main (thr_at s x) (Done 0)).
+  { subst s'. vw. rewrite nth_upd_neq by auto. updsimp. reflexivity. }
+  assert (Hcb : cb th = CbNone) by (unfold cbk in Tc; rewrite Hth in Tc; exact Tc).
+  assert (Hpc : (pc' = WPush n (i + 1) (nth x (nxt s) None) /\ (i + 1 < n)%Z) \/ (pc' = Done 1 /\ (i + 1 = n)%Z)).
+  { subst pc'. unfold get_next, SERIAL. destruct (Z.ltb_spec (i + 1) n); [left; split; auto|right; split; auto; lia]. }
+  assert (Hrel : in_release pc' = true) by (destruct Hpc as [[-> _]|[-> _]]; reflexivity).
+  cbn [length] in G3.
+  assert (Hkeep : forall y, y <> x -> asleep N s y -> asleep N s' y).
+  { intros y Hy Hay. apply asleep_keep with (s := s); auto. apply Hoth; auto.
+    intros ->. destruct Hay as (_ & E & _). congruence. }
+  constructor; cbn [gR ar cl ldr arrs slp acc wk zret stk snap rets].
+  - subst s'. cbn [set_thread thr nxt nthr]. rewrite !upd_length. repeat split; auto.
+  - intros u Hu. destruct (Nat.eq_dec u t) as [->|Hne]; [|destruct (Nat.eq_dec u x) as [->|Hnx]].
+    + unfold T, mn, cbk. rewrite Hme. cbn [set_main main cb gR ldr wk]. rewrite Hcb. unfold arv, clv in *. cbn [ar cl].
+      destruct Hpc as [[-> _]|[-> _]]; repeat split; auto.
+    + pose proof (HT x Hu) as HTx. unfold T in *. unfold mn, cbk in *. rewrite Hmx. cbn [set_main main cb].
+      rewrite Hxm in HTx. unfold cbk in Hxc. rewrite Hxc in *. unfold arv, clv in *. cbn [gR ar cl ldr wk].
+      destruct HTx as (U1 & U2 & U3). repeat split; auto. right. repeat split; auto; try congruence. left; auto.
+    + eapply T_frame; try apply (HT u Hu); try reflexivity; auto.
+      * cbn [acc]. rewrite Eacc. cbn [In]. split; [auto|intros [H|H]; [congruence|auto]].
+      * cbn [wk]. cbn [In]. split; [intros [H|H]; [congruence|auto]|auto].
+  - exact Harrs.
+  - refine (conj _ (conj _ (conj _ _))); auto.
+    + intros y Hy. apply Hkeep; auto. intros ->; auto.
+    + intros y Hy. destruct (S4 y (or_intror Hy)) as [B1 B2]. split; auto. apply Hkeep; auto. intros ->; auto.
+  - destruct Hslp as (P1 & P2). rewrite G4. split; [constructor|intros y []].
+  - destruct Hwk as (P1 & P2). split; [constructor; auto|]. intros y [<-|Hy].
+    + split; auto. unfold mn. rewrite Hmx. reflexivity.
+    + destruct (P2 y Hy) as [B1 B2]. split; auto. unfold mn. rewrite Hoth; auto; intros ->; congruence.
+  - destruct Hsum as (Q1 & Q2). split; [intros E; lia|]. intros _. destruct (Q2 TR) as [Q3 Q4]. split; auto.
+    cbn [length] in *. lia.
+  - intros _. unfold GL, mn. cbn [ldr arrs slp acc wk zret stk snap]. rewrite <- Tl. rewrite Hme. cbn [set_main main].
+    destruct Hpc as [[-> Hlt]|[-> Heq]].
+    + repeat split; auto; try lia.
+    + split; auto. apply length_zero_iff_nil. lia.
+  - destruct Hlog as (Q1 & Q2 & Q3). refine (conj Q1 (conj Q2 _)).
+    intros _. destruct (Q3 TR) as [Q3a Q3b]. split; [|exact Q3b]. rewrite Q3a. unfold mn.
+    rewrite <- Tl. rewrite Hme. cbn [set_main main]. rewrite Hrel. unfold mn in Hmt. rewrite Hmt. reflexivity.
+Qed.
